@@ -6,6 +6,7 @@ use std::io::{BufRead, Write};
 mod c02;
 mod c04;
 mod c08;
+mod c09;
 mod c18;
 pub mod util;
 
@@ -17,6 +18,13 @@ fn main() {
     }
     match args[1].as_str() {
         "lines" => run_lines(),
+        "lines-limited" => {
+            // decode peer bytes under an address-space limit: an allocation driven by
+            // a length field shows up as an abort instead of being absorbed by the host
+            c09::set_memory_limit(3 << 30);
+            run_lines()
+        }
+        "c09-gen" => c09::generate(args[2].parse().unwrap(), args[3].parse().unwrap()),
         "c08-base-size" => println!("{}", c08::base_size()),
         m => {
             eprintln!("unknown mode {m}");
@@ -44,12 +52,18 @@ fn run_lines() {
             "book" => c02::book(&mut t),
             "needs" => c04::needs(&mut t),
             "members" => c18::members(&mut t),
+            "wire" => c09::wire(&mut t),
+            "decode" => c09::decode(&mut t),
+            "pack" => c09::pack(&mut t),
+            "unpack" => c09::unpack(&mut t),
+            "utf8" => c09::utf8(&mut t),
             _ => format!("ERR unknown-kind {kind}"),
         }));
         match res {
             Ok(s) => writeln!(out, "{s}").unwrap(),
             Err(_) => writeln!(out, "PANIC").unwrap(),
         }
+        out.flush().unwrap();
     }
     out.flush().unwrap();
 }
